@@ -294,6 +294,31 @@ func nonceOK(c *Ctx, a *effects.Analysis, cx *bounds.Ctx, f *ssa.Function, use s
 			}
 		}
 	}
+	// the nonce is a result of a module helper that draws it: judged at every success
+	// return of the helper, with the helper's own fills (the whole result is the nonce)
+	if hc, hi := guard.CallOf(v); hc != nil && guard.Strip(v) == v {
+		if _, isEx := v.(*ssa.Extract); isEx || v == ssa.Value(hc) {
+			if h := hc.Call.StaticCallee(); h != nil && h.Blocks != nil && core.FuncClass(h) == core.Product && h != f && hi < h.Signature.Results().Len() && core.IsByteSlice(h.Signature.Results().At(hi).Type()) {
+				hcx := bounds.NewCtx(h)
+				hfills := randomFillsOf(hcx, h)
+				if len(hfills) > 0 {
+					all, n := true, 0
+					for _, ret := range guard.SuccessReturns(h) {
+						if hi >= len(ret.Results) || guard.IsNilConst(ret.Results[hi]) {
+							continue
+						}
+						n++
+						if _, ok := nonceOK(c, a, hcx, h, ret, ret.Results[hi], hfills); !ok {
+							all = false
+						}
+					}
+					if all && n > 0 {
+						return "result of " + h.Name() + ", every success return of which hands back a region covered by its own random fill", true
+					}
+				}
+			}
+		}
+	}
 	reg := regionOf(cx, v)
 	facts := cx.FactsToLin(guard.InstrFacts(use))
 	for _, fs := range fills {
